@@ -143,16 +143,50 @@ def levels(topo, root, result, env, maxlevels=400):
     return out
 
 
-def observe_case(topo, root, variant, depths, events, meta):
+EARLY = {"asserted": 0, "degraded_not_asserted": 0}
+
+
+def observe_case(topo, root, variant, depths, events, meta, early=False):
     import typelib
     fin = finite(topo)
     if root[1] not in fin:
         return
     defs = topo_defs(topo, variant)
     env = Env(defs, tag="r")
+    if early:
+        # (module-less references of one failed build compare equal to those of same-named classes of the next case and
+        # meet them in the ==-keyed memos -- history across unrelated types is C12's subject: each such case starts cold)
+        clear_typelib_caches()
+        # history: routines of every class are asked for as soon as its class statement has run, i.e. possibly before the
+        # classes it refers to exist (a registry decorator, a REPL); such a build may fail -- what is built later may not
+        degraded = []
+
+        def probe(cls):
+            import typing
+            try:
+                typing.get_type_hints(cls)
+                complete = True
+            except Exception:
+                complete = False
+            for build in (typelib.unmarshaller, typelib.marshaller):
+                try:
+                    with_deadline(3, build, cls)
+                    # a build that succeeds although names of the class cannot be resolved yet treats them as pass-through
+                    # by documented design, and that routine is the memoised one from then on: not asserted below
+                    if not complete:
+                        degraded.append(cls.__name__)
+                except Deadline:
+                    raise
+                except Exception:
+                    pass
+        env.probe = probe
     env.build(None, "m1")
+    if early and degraded:
+        EARLY["degraded_not_asserted"] += 1
+        env.dispose(); return
+    EARLY["asserted"] += 1 if early else 0
     ann = env.annotation(field_type(root))
-    info = {"topo": topo, "root": root, "variant": variant}
+    info = {"topo": topo, "root": root, "variant": variant, "early_build": early}
 
     def lev(d, what, out, converted=True):
         events.append({"ev": "level", "T": {"k": "any"}, "out": out, "converted": converted, "check": "flat"})
@@ -254,7 +288,9 @@ def _run(ctx: Ctx, box):
     for k, c in enumerate(cases):
         deep = ndeep and k % max(1, len(cases) // ndeep) == 0
         n0 = len(meta)
-        observe_case(c["topo"], c["root"], k % 5, depths + ([50, 100, 150] if deep else []), events, meta)
+        observe_case(c["topo"], c["root"], k % 5, depths + ([50, 100, 150] if deep else []), events, meta, early=(k % 4 == 3))
+        if k % 4 == 3:
+            clear_typelib_caches()
         for m in meta[n0:]:
             m["case_id"] = k
     depths = depths if quick else depths + [50, 100, 150]
@@ -280,6 +316,8 @@ def _run(ctx: Ctx, box):
         coverage={"states": res.distinct, "transitions": res.generated, "exhaustive": True,
                   "traces_validated_against_impl": len(events), "evaluations": len(events),
                   "distinct_nontrivial": len(nontrivial), "cyclic_cases_emitted": ncyc, "cases_run": len(cases), "depths": depths,
+                  "early_build_histories_asserted": EARLY["asserted"],
+                  "early_build_histories_degraded_by_design_not_asserted": EARLY["degraded_not_asserted"],
                   "rule": "cycle topologies emitted by TLC from spec/Graph.tla (2 classes x <=2 fields over Optional/list/dict/tuple edges, "
                           "3 classes x 1 field incl. direct edges; every class and every container of a class as root), materialised in 4 "
                           "class flavours over 1-2 modules; for each depth the raw wire value is unmarshalled and walked level by level "
@@ -313,7 +351,7 @@ def replay(ctx: Ctx, rep: dict) -> Outcome:
     m = rep["case"]
     sys.setrecursionlimit(30000)
     events, meta = [], []
-    observe_case(m["topo"], m["root"], m["variant"], [m["depth"]] if m["depth"] >= 0 else [0], events, meta)
+    observe_case(m["topo"], m["root"], m["variant"], [m["depth"]] if m["depth"] >= 0 else [0], events, meta, early=m.get("early_build", False))
     for e, mm in zip(events, meta):
         print("  ", mm["what"], mm["depth"], e.get("out", e.get("flags")), e.get("converted", e.get("reach")))
     _, rejects = tlc.validate_trace("Member_Trace", "Member_Trace.cfg", events)
